@@ -57,7 +57,7 @@ def run():
     from linear import destroyed
     from restore import DIRTY, RestoreAnalysis, exits
     import votinglib
-    F = mir.Facts(fixture_facts())
+    F = mir.Facts(fixture_facts(), baseline=False)
     res = []
 
     def dirty_at_err(name, fields):
@@ -157,6 +157,15 @@ def run():
         cnt = count_on_paths(b, 0, b.returns(), [c.bb for c in b.find_calls('Filt::predict')])
         res.append(('P9 %s: update takes a predicted state on every path' % name,
                     (allp and cnt == (1, 1)) == want, '%r %r' % (alts, cnt)))
+    # inliner: a helper that is not in the baseline is spliced into its caller (same expression as the inline form)
+    allf = {b.npath for b in F.all_bodies() if b.kind in ('Fn', 'AssocFn')}
+    F2 = mir.Facts(fixture_facts(), baseline=allf - {'radius_helper_sq'})
+    e1 = ExprBuilder(F2.one('radius_inline')).place(0, ())
+    e2 = ExprBuilder(F2.one('radius_via_helper')).place(0, ())
+    res.append(('P10 new private helper is inlined into its caller', repr(e1) == repr(e2) and
+                'radius_helper_sq' in str(F2.inlined.get('radius_via_helper')), '%r vs %r' % (e1, e2)))
+    e3 = ExprBuilder(F.one('radius_via_helper')).place(0, ())
+    res.append(('P10 baseline helpers are not inlined', 'radius_helper_sq' in repr(e3), repr(e3)))
     return res
 
 
